@@ -57,7 +57,7 @@ class Spec(SeqSpec):
         ops.append(('import', (0, 1, 3), False, 104857600, 'same'))
         ops.append(('import', (0, 1, 3, 3), True, 13, 'other'))
         ops.append(('import', (1, 3), False, 1, 'same'))
-        for how in ('overwrite', 'truncate', 'extend'):
+        for how in ('overwrite', 'truncate', 'extend', 'empty'):
             ops.append(('damage', 1, how))
         ops.append(('damage', 0, 'extend'))
         ops.append(('reopen',))
@@ -150,7 +150,7 @@ def run(tier, report):
         # (e.g. a cache of "already verified" loose files), and the property quantifies over any number of repetitions
         ops = [('add', 1), ('adds', 1), ('topack', (1,), False, False, True), ('topack', (1,), False, True, False),
                ('import', (1,), False, 104857600, 'same'), ('pack', 'NO', False, True), ('clean', False),
-               ('damage', 1, 'overwrite'), ('damage', 1, 'truncate')]
+               ('damage', 1, 'overwrite'), ('damage', 1, 'truncate'), ('damage', 1, 'empty')]
         from ..seqx import explore_nomerge
         explore_nomerge(spec, report, ops, 4 if tier == 'quick' else 5)
 
